@@ -24,7 +24,7 @@ SPEC = {
     "assumptions": ["reference AVM (vlib/avm.py) semantics", "model: bare iff NumAppArgs==0; method iff arg0 == selector and config allows"],
     "min_evaluations": {"quick": 20000, "thorough": 200000},
     "must_reach": ["handler_ran_ok", "rejected_ok", "clear_ok", "kind_expr", "kind_sub", "kind_abisub"],
-    "shard_timeout": {"quick": 900, "thorough": 7200},
+    "shard_timeout": {"quick": 2400, "thorough": 14400},
 }
 
 
